@@ -10,6 +10,10 @@
 //   <fiber>:!sub j; !ret j;      around Submit(job j)
 //   <fiber>:!call j; !end j;     Job::Call of j begins / ends        <fiber>:!drop j;   Job::Drop of j
 //   T:!stop k; !stopped;         around the stop call (k = 0 Stop, 1 SoftStop, 2 HardStop)    T:!waited; after Wait
+//   <fiber>:!alive; !alived b;   around a call of pool.Alive() made from a job's Drop()
+// Re-entrant jobs (scenario flag d | c | a on job 0): its Drop() submits a child job to the same pool / its Call() does
+// (control) / its Drop() calls Alive().  The child is an ordinary recorded job; its !sub/!ret markers are nested inside
+// the parent's Drop/Call on whatever fiber runs it (submitter, worker, or the stopper inside HardStop's drop loop).
 #include "vrt_all.hpp"
 
 #include "vrt_main.hpp"
@@ -78,6 +82,11 @@ struct TJob final : yaclib::Job {
   int id = 0;
   Rec* rec = nullptr;
   yaclib_std::atomic<int>* yield_at = nullptr;
+  int child_on_drop = -1;   // Drop() submits this job to the same pool
+  int child_on_call = -1;   // Call() submits this job to the same pool
+  bool alive_on_drop = false;  // Drop() asks the pool whether it is alive
+  const std::function<void(int)>* submit = nullptr;
+  yaclib::FairThreadPool* pool = nullptr;
 
   void Call() noexcept final {
     ++rec->calls[id];
@@ -95,6 +104,9 @@ struct TJob final : yaclib::Job {
     if (yield_at != nullptr) {
       yield_at->fetch_add(1);  // a scheduling point inside the job: other fibers run while this job is "running"
     }
+    if (child_on_call >= 0) {
+      (*submit)(child_on_call);
+    }
     vrt::Event("end " + std::to_string(id));
     --rec->running;
   }
@@ -106,6 +118,14 @@ struct TJob final : yaclib::Job {
         vrt::Fail("SoftStop: job " + std::to_string(id) + " rejected (pool stopped) while a job is running");
       }
       rec->any_drop = true;
+    }
+    if (child_on_drop >= 0) {
+      (*submit)(child_on_drop);
+    }
+    if (alive_on_drop) {
+      vrt::Event("alive");
+      const bool alive = pool->Alive();
+      vrt::Event(alive ? "alived 1" : "alived 0");
     }
   }
   void IncRef() noexcept final {
@@ -125,12 +145,14 @@ struct Cfg {
   int pre;       // jobs the stopper submits itself before the stop call
   bool late;     // the stopper submits one more job after Wait returned
   bool yield;    // jobs contain a scheduling point
+  char reent = 0;  // 'd': job 0's Drop submits a child job, 'c': job 0's Call does, 'a': job 0's Drop calls Alive()
 };
 
 std::string Name(const Cfg& c) {
   static const char* kKinds[] = {"stop", "soft", "hard"};
   return "n" + std::to_string(c.workers) + "/s" + std::to_string(c.submitters) + "x" + std::to_string(c.per) + "/p" +
-         std::to_string(c.pre) + (c.late ? "l" : "") + (c.yield ? "y" : "") + "/" + kKinds[c.kind];
+         std::to_string(c.pre) + (c.late ? "l" : "") + (c.yield ? "y" : "") + (c.reent != 0 ? std::string(1, c.reent) : "") + "/" +
+         kKinds[c.kind];
 }
 
 // Executions that end with a parked fiber (deadlock) abandon their fiber stacks; on a broken pool thousands of them
@@ -152,14 +174,21 @@ void RunScenario(const Cfg& c) {
   Rec rec;
   rec.kind = c.kind;
   const int total = c.submitters * c.per + c.pre + (c.late ? 1 : 0);
-  std::vector<TJob> jobs(static_cast<std::size_t>(total));
+  const int child = (c.reent == 'd' || c.reent == 'c') ? total : -1;  // the child job's id, after all the others
+  const int total_all = total + (child >= 0 ? 1 : 0);
+  std::vector<TJob> jobs(static_cast<std::size_t>(total_all));
+  std::function<void(int)> submit;
   yaclib_std::atomic<int> inside{0};
   vrt::NameLoc(&inside, "x");
-  for (int i = 0; i < total; ++i) {
+  for (int i = 0; i < total_all; ++i) {
     jobs[i].id = i;
     jobs[i].rec = &rec;
     jobs[i].yield_at = c.yield ? &inside : nullptr;
+    jobs[i].submit = &submit;
   }
+  jobs[0].child_on_drop = c.reent == 'd' ? child : -1;
+  jobs[0].child_on_call = c.reent == 'c' ? child : -1;
+  jobs[0].alive_on_drop = c.reent == 'a';
   {
     yaclib::FairThreadPool pool(static_cast<std::uint64_t>(c.workers));
     for (int i = 0; i < c.workers; ++i) {
@@ -201,7 +230,8 @@ void RunScenario(const Cfg& c) {
     vrt::NameLoc(&pool._m, "m", fmt);
     vrt::NameLoc(&pool._idle, "cv", fmt);
 
-    auto submit = [&](int j) {
+    jobs[0].pool = &pool;
+    submit = [&](int j) {
       rec.sub_begin[j] = rec.tick();
       vrt::Event("sub " + std::to_string(j));
       pool.Submit(jobs[static_cast<std::size_t>(j)]);
@@ -256,7 +286,10 @@ void RunScenario(const Cfg& c) {
     stopper.join();
 
     // ---- oracle (property text)
-    for (int j = 0; j < total; ++j) {
+    for (int j = 0; j < total_all; ++j) {
+      if (j == child && rec.sub_begin[j] == 0) {
+        continue;  // the parent was finished the other way: the child was never submitted
+      }
       if (rec.calls[j] + rec.drops[j] != 1) {
         vrt::Fail("job " + std::to_string(j) + ": Called " + std::to_string(rec.calls[j]) + " times and Dropped " +
                   std::to_string(rec.drops[j]) + " times");
@@ -272,8 +305,8 @@ void RunScenario(const Cfg& c) {
     }
     gMutexHeld = nullptr;
     if (c.workers == 1) {
-      for (int a = 0; a < total; ++a) {
-        for (int b = 0; b < total; ++b) {
+      for (int a = 0; a < total_all; ++a) {
+        for (int b = 0; b < total_all; ++b) {
           if (rec.calls[a] == 1 && rec.calls[b] == 1 && rec.sub_end[a] < rec.sub_begin[b] &&
               rec.call_begin[a] > rec.call_begin[b]) {
             vrt::Fail("single worker: job " + std::to_string(a) + " was submitted before job " + std::to_string(b) +
@@ -295,15 +328,22 @@ int main(int argc, char** argv) {
   yaclib::verif::gHooks.choose = ChooseReduced;
   yaclib::verif::gHooks.before = BeforeOwned;
   std::vector<Cfg> cfgs;
-  auto add = [&](int n, int s, int per, int pre, bool late, bool y) {
+  auto add = [&](int n, int s, int per, int pre, bool late, bool y, char reent = 0) {
     for (int kind = 0; kind < 3; ++kind) {
-      cfgs.push_back(Cfg{n, s, per, kind, pre, late, y});
+      cfgs.push_back(Cfg{n, s, per, kind, pre, late, y, reent});
     }
   };
   if (set == "small") {
     add(1, 1, 1, 0, false, false);
     add(1, 2, 1, 0, false, false);
     add(1, 1, 1, 1, true, false);
+  } else if (set == "reent") {  // a job that talks to the pool again from its Drop() / Call()
+    add(1, 1, 1, 0, false, false, 'd');
+    add(1, 1, 1, 0, false, false, 'c');
+    add(1, 1, 1, 0, false, false, 'a');
+    add(1, 1, 2, 0, false, false, 'd');  // a plain job queued behind the re-entrant one
+    add(2, 1, 2, 0, false, false, 'd');
+    add(1, 1, 1, 1, false, false, 'a');
   } else if (set == "medium") {
     add(1, 1, 2, 0, false, false);
     add(1, 1, 1, 0, false, true);
